@@ -218,3 +218,35 @@ def _(self: Union[SRKRSA(256, 3), SRKRSA(384, 3), SRKRSA(512, 3), SRKRSA(256, 4)
 def _(flag: OneOf(0, 0x80), modulus: Union[Bytes(256), Bytes(384), Bytes(512)], exponent: Union[Bytes(3), Bytes(4)]):
     let(back=SrkItemRSA.parse(srk_rsa_bytes(flag, modulus, exponent)))
     ensures(back.modulus == modulus and back.exponent == exponent and back.flag == flag, label="modulus-exponent-flag-come-back")
+
+
+# ----------------------------------------------------------------------------------------------------------------------
+# XMCD block inside a HAB image (spsdk/image/segments.py): header byte layout, size, and parse inverts export
+# ----------------------------------------------------------------------------------------------------------------------
+from spsdk.image.segments import SegXMCD, XMCDHeader  # noqa: E402
+
+inline("spsdk.image.segments:XMCDHeader.__init__", "spsdk.image.segments:XMCDHeader.parse", "spsdk.image.segments:XMCDHeader.config_data_size")
+XHDR = Obj(XMCDHeader, tag=Const(0x0C), version=Const(0), interface=OneOf(0, 1), instance=Range(0, 15), block_type=OneOf(0, 1), block_size=Range(4, 4095))
+
+
+@contract("spsdk.image.segments:XMCDHeader.export")
+def _(self: XHDR) -> bytes:
+    # byte 0: size bits 7..0; byte 1: block type << 4 | size bits 11..8; byte 2: interface << 4 | instance; byte 3: tag << 4 | version
+    returns(bytes([self.block_size % 256, self.block_type * 16 + self.block_size // 256, self.interface * 16 + self.instance, 0xC0]),
+            label="size-type-interface-instance-tag-in-their-nibbles")
+    pure()
+    sample_with(lambda rnd: {"self": XMCDHeader(rnd.randrange(2), rnd.randrange(16), rnd.randrange(2), rnd.choice([4, 12, 260, 516]))})
+
+
+@lemma("xmcd-header-parse-inverts-export")
+def _(interface: OneOf(0, 1), instance: Range(0, 15), block_type: OneOf(0, 1), block_size: Range(4, 4095)):
+    let(back=XMCDHeader.parse(XMCDHeader(interface, instance, block_type, block_size).export()))
+    ensures(back.interface == interface and back.instance == instance and back.block_type == block_type and back.block_size == block_size,
+            label="interface-instance-type-size-come-back")
+
+
+@contract("spsdk.image.segments:SegXMCD.size")
+def _(self: Obj(SegXMCD, header=XHDR, config_data=Bytes(lo=0, hi=4091), padding=Const(0))) -> int:
+    returns(4 + len(self.config_data), label="size-is-the-length-of-the-export")
+    pure()
+    sample_with(lambda rnd: {"self": SegXMCD(XMCDHeader(), bytes(rnd.randrange(0, 300)))})
